@@ -6,5 +6,5 @@ echo "== new files"
 rsync -a --ignore-existing --exclude '.git' --exclude '.lake' --exclude '.audit' --exclude '__pycache__' --exclude 'replays' --exclude 'evidence' \
   --exclude 'MANIFEST.json' --exclude 'lean/Driver.lean' --exclude 'lean/OptiModel.lean' --out-format='%n' "$SRC/" /verif/ | grep -v '/$'
 echo "== existing files that differ in the agent copy (not merged)"
-rsync -an --exclude '.git' --exclude '.lake' --exclude '.audit' --exclude '__pycache__' --exclude 'replays' --exclude 'evidence' \
+rsync -anc --exclude '.git' --exclude '.lake' --exclude '.audit' --exclude '__pycache__' --exclude 'replays' --exclude 'evidence' \
   --exclude 'MANIFEST.json' --exclude 'lean/Driver.lean' --exclude 'lean/OptiModel.lean' --out-format='%n' "$SRC/" /verif/ | grep -v '/$'
